@@ -19,6 +19,7 @@ from __future__ import annotations
 
 import json
 import random
+import re
 from concurrent.futures import ThreadPoolExecutor
 from math import floor, log
 
@@ -36,7 +37,7 @@ MANIFEST = {
 
 INVS = ["TypeOK", "C38_MemPartition", "C38_DiskPartition", "C38_Final", "C38_NoRedo", "C38_Names"]
 PROPS = ["C38_Variant", "C38_WriteOnce"]
-ACTIONS = ["Step", "Save", "Crash", "Load", "LoadRefused"]
+ACTIONS = ["StepGvcfs", "StepVdses", "Save", "Crash", "Load", "LoadRefused"]
 
 
 def _flt(maxbf, maxn, table=None):
@@ -72,6 +73,15 @@ def _consts(maxg, bfs, batches, exts, maxepoch, maxcrash):
             "MaxEpoch": maxepoch, "MaxCrash": maxcrash, "FLT": "<- MC_FLT"}
 
 
+def _js(o):
+    """JSON-safe copy (dict keys -> str, tuples/sets -> lists)."""
+    if isinstance(o, dict):
+        return {(k if isinstance(k, str) else repr(k)): _js(v) for k, v in o.items()}
+    if isinstance(o, (list, tuple, set, frozenset)):
+        return [_js(x) for x in o]
+    return o
+
+
 def _report_spec_violations(ctx, res, what, consts):
     for v in res.violations:
         ctx.violation(f"spec:{v.name}", {"run": what, "config": consts, "trace": [(h, tlaval.to_py(s) if s else s) for h, s in v.trace][-6:]})
@@ -90,9 +100,9 @@ def _prep(wd, tag, cfg, flt_table=None, spec=None, props=PROPS, invs=INVS):
 def _spec_jobs(ctx, wd):
     """(1) exhaustive TLC runs on the spec alone: (tag, what, consts, coverage?, dump?)."""
     if ctx.quick:
-        main = dict(maxg=3, vds=[(), (1,), (3, 1), (1, 2, 5)], bfs=[2, 3], batches=[1, 2], exts=[False, True], maxepoch=3, maxcrash=1)
+        main = dict(maxg=3, vds=[(), (3, 1), (1, 2, 5)], bfs=[2, 3], batches=[1, 2], exts=[False, True], maxepoch=2, maxcrash=1)
         live = dict(maxg=3, vds=[(), (3, 1)], bfs=[2], batches=[1, 2], exts=[False], maxepoch=3, maxcrash=2)
-        adv = dict(main, exts=[False], maxepoch=2)
+        adv = dict(main, exts=[False], vds=[(), (1, 2, 5)])
         advs = ["scrambled"]
     else:
         main = dict(maxg=5, vds=[(), (1,), (3, 1), (1, 2, 5), (2, 2, 2, 9)], bfs=[2, 3, 4], batches=[1, 2], exts=[False, True], maxepoch=3, maxcrash=2)
@@ -107,31 +117,45 @@ def _spec_jobs(ctx, wd):
         jobs.append(("adv" + name, f"exhaustive Combiner with adversarial binning table '{name}'", _prep(wd, "adv" + name, adv, flt_table=tables[name]), False, None))
     jobs.append(("live", "liveness C38_Terminates under WF(Step), WF(Load), bounded crashes",
                  _prep(wd, "live", live, spec="FairSpec", props=["C38_Terminates"], invs=[]), False, None))
+    if not ctx.quick:
+        # random simulation far beyond the exhaustive bounds (all invariants and action properties checked on every step)
+        big = dict(maxg=14, vds=[(), (1,), (7, 1, 1), (1, 2, 5, 30), (2, 2, 2, 9, 9, 27), (64, 1, 8, 1, 1, 3, 3)], bfs=[2, 3, 5], batches=[1, 2, 3],
+                   exts=[False, True], maxepoch=6, maxcrash=4)
+        jobs.append(("sim", "random simulation of Combiner with large parameters (14 GVCFs, 7 datasets, 5 reloads)",
+                     _prep(wd, "sim", big), False, None, {"simulate": "num=4000", "depth": 120, "seed": ctx.seed + 1}))
     return jobs
 
 
 def _graph_cfgs(ctx):
     if ctx.quick:
-        return [dict(maxg=3, vds=[(), (3, 1)], bfs=[2], batches=[1, 2], exts=[False], maxepoch=3, maxcrash=1),
-                dict(maxg=2, vds=[(), (1, 2, 5)], bfs=[2, 3], batches=[1], exts=[False, True], maxepoch=2, maxcrash=1)]
+        return [dict(maxg=2, vds=[(3, 1)], bfs=[2], batches=[1, 2], exts=[False], maxepoch=3, maxcrash=1),
+                dict(maxg=3, vds=[(), (1, 2, 5)], bfs=[2, 3], batches=[1], exts=[False, True], maxepoch=2, maxcrash=1)]
     return [dict(maxg=4, vds=[(), (1,), (3, 1), (1, 2, 5)], bfs=[2, 3], batches=[1, 2], exts=[False], maxepoch=3, maxcrash=1),
-            dict(maxg=3, vds=[(), (2,), (2, 2, 2, 9)], bfs=[2, 3, 4], batches=[1, 2], exts=[False, True], maxepoch=3, maxcrash=2)]
+            dict(maxg=3, vds=[(), (2,), (2, 2, 2, 9)], bfs=[2, 3, 4], batches=[1], exts=[False, True], maxepoch=3, maxcrash=1)]
 
 
 def _graph_jobs(ctx, wd):
     return [(f"g{n}", f"Combiner state graph #{n} for replay", _prep(wd, f"g{n}", cfg), False, f"g{n}") for n, cfg in enumerate(_graph_cfgs(ctx))]
 
 
-def _run_job(wd, job, workers):
-    tag, what, consts, cov, dump = job
-    return tlc.run(wd, f"MC{tag}", f"MC{tag}.cfg", workers=workers, coverage=cov, dump=dump)
+def _run_job(wd, job, workers, seed=None):
+    tag, what, consts, cov, dump = job[:5]
+    extra = job[5] if len(job) > 5 else {}
+    return tlc.run(wd, f"MC{tag}", f"MC{tag}.cfg", workers=workers, coverage=cov, dump=dump, **extra)
 
 
 def _collect_spec(ctx, job, res):
-    tag, what, consts, cov, dump = job
+    tag, what, consts, cov, dump = job[:5]
     ctx.add_tlc(res, what)
     if cov and not res.violations:
-        ctx.require_covered(res, ACTIONS, what)
+        # vacuity guard.  (vlib.tlc's coverage regex does not match actions whose body starts with LET: TLC prints
+        # "<StepGvcfs line .. of module Combiner (119 3 130 48)>: d:t" for those, so the output is parsed here.)
+        taken = {m.group(1): int(m.group(3)) for m in re.finditer(
+            r"^<(\w+) line \d+, col \d+ to line \d+, col \d+ of module \w+(?: \([\d ]+\))?>: (\d+):(\d+)", res.out, re.M)}
+        missing = [a for a in ACTIONS if taken.get(a, 0) == 0]
+        if missing:
+            raise RuntimeError(f"vacuous run {what}: actions never taken: {missing}")
+        ctx.cov.setdefault("actions_taken", {})[what] = {a: taken[a] for a in ACTIONS}
     _report_spec_violations(ctx, res, what, consts)
 
 
@@ -155,7 +179,7 @@ def _replay_graph(ctx, wd, ns, n, cfg, res):
             views[nid] = C.spec_view(g.nodes[nid])
         return views[nid]
 
-    call = {"Step": "step", "Save": "save", "Crash": "crash", "Load": "load", "LoadRefused": "load_refused"}
+    call = {"StepGvcfs": "step", "StepVdses": "step", "Save": "save", "Crash": "crash", "Load": "load", "LoadRefused": "load_refused"}
     for w in walks:
         if not w or mism >= 5:
             continue
@@ -163,7 +187,7 @@ def _replay_graph(ctx, wd, ns, n, cfg, res):
         impl = C.Impl(ns, par)
         d = walk.diff_states(view(w[0][0]), impl.project())
         if d:
-            ctx.violation("replay:init:" + ",".join(sorted(d)), {"par": par, "diff": d})
+            ctx.violation("replay:init:" + ",".join(sorted(d)), {"par": par, "diff": _js(d)})
             mism += 1
             continue
         path = []
@@ -184,7 +208,7 @@ def _replay_graph(ctx, wd, ns, n, cfg, res):
             seen.add((src, lab, dst))
             d = walk.diff_states(view(dst), impl.project())
             if d:
-                ctx.violation(f"replay:{lab}:" + ",".join(sorted(d)), {"par": par, "path": path, "diff": d})
+                ctx.violation(f"replay:{lab}:" + ",".join(sorted(d)), {"par": par, "path": path, "diff": _js(d)})
                 mism += 1
                 break
     # vacuity: resumed runs that reach the output, and refused loads, are in the graph
@@ -198,7 +222,7 @@ def _replay_graph(ctx, wd, ns, n, cfg, res):
     if not mism and resumed_final == 0:
         raise RuntimeError("vacuous graph: no resumed run reaches the output")
     if n == 0:
-        steps = [x for x in g.edges if x[1] == "Step" and x[0] != x[2]]
+        steps = [x for x in g.edges if x[1] == "StepVdses" and x[0] != x[2]]
         if steps:
             e = steps[len(steps) // 2]
             ctx.sample({"kind": "graph-edge", "edge": e[1], "par": tlaval.to_py(g.nodes[e[0]]["par"]),
@@ -208,12 +232,20 @@ def _replay_graph(ctx, wd, ns, n, cfg, res):
 
 # ------------------------------------------------------------------------------------------------------
 def _post(p):
-    return {"mem": {"alive": p["mem"]["alive"], "gvcfs": list(p["mem"]["gvcfs"]), "names": list(p["mem"]["names"]),
-                    "bins": [[b, [{"path": list(d["path"]), "n": d["n"]} for d in p["mem"]["bins"][b]]] for b in sorted(p["mem"]["bins"])],
+    """Projected implementation state as JSON for TLC.  TLC cannot compare values of different types, so anything that
+    is not a well-formed leaf (an int) becomes 0, which is no input; the harness reports such states itself (cols_ok)."""
+    def li(xs):
+        return [x if isinstance(x, int) and not isinstance(x, bool) else 0 for x in xs]
+
+    def pth(t):
+        return [t[0], str(t[1]), t[2], t[3]]
+
+    return {"mem": {"alive": p["mem"]["alive"], "gvcfs": li(p["mem"]["gvcfs"]), "names": li(p["mem"]["names"]),
+                    "bins": [[b, [{"path": pth(d["path"]), "n": d["n"]} for d in p["mem"]["bins"][b]]] for b in sorted(p["mem"]["bins"])],
                     "job": p["mem"]["job"], "epoch": p["mem"]["epoch"]},
-            "disk": {"saved": p["disk"]["saved"], "gvcfs": list(p["disk"]["gvcfs"]), "names": list(p["disk"]["names"]),
-                     "vdses": [{"path": list(d["path"]), "n": d["n"]} for d in p["disk"]["vdses"]]},
-            "store": [{"p": list(k), "leaves": list(v)} for k, v in sorted(p["store"].items(), key=repr)],
+            "disk": {"saved": p["disk"]["saved"], "gvcfs": li(p["disk"]["gvcfs"]), "names": li(p["disk"]["names"]),
+                     "vdses": [{"path": pth(d["path"]), "n": d["n"]} for d in p["disk"]["vdses"]]},
+            "store": [{"p": pth(k), "leaves": li(v)} for k, v in sorted(p["store"].items(), key=repr)],
             "nextepoch": p["nextepoch"]}
 
 
@@ -221,8 +253,8 @@ class _CrashNow(BaseException):
     pass
 
 
-def _traces(ctx, wd, ns):
-    """(3) B2: random larger executions of the real class, validated by TLC."""
+def _traces_generate(ctx, wd, ns):
+    """(3) B2: random larger executions of the real class (validated by TLC in _traces_validate)."""
     ntr, maxg, maxv, maxn = (60, 30, 5, 40) if ctx.quick else (500, 60, 7, 90)
     rng = random.Random(ctx.seed * 7919 + 38)
     lines = []
@@ -335,7 +367,10 @@ def _traces(ctx, wd, ns):
     (wd / "MCtrace.tla").write_text(_mc_module("MCtrace", "CombinerTrace", [()], flt))
     consts = _consts(0, [2], [1], [False], 1000, 1000)
     (wd / "MCtrace.cfg").write_text(tlc.mk_cfg(spec="TraceSpec", constants=consts, invariants=INVS, properties=PROPS, deadlock=True))
-    tres = tlc.run(wd, "MCtrace", "MCtrace.cfg", workers=4, env={"TRACE_FILE": tf})
+    return lines, tf, maxg, maxv
+
+
+def _traces_validate(ctx, wd, lines, tf, maxg, maxv, tres):
     nev = sum(len(json.loads(x)["ev"]) for x in lines)
     ctx.add_tlc(tres, f"trace validation of {len(lines)} executions of the real combiner (up to {maxg} GVCFs, {maxv} datasets)")
     if not tres.violations and tres.distinct < nev:
@@ -371,21 +406,21 @@ def _partition_gen(ctx, wd, ns):
     defaults = [vdc.VariantDatasetCombiner.default_genome_interval_size, vdc.VariantDatasetCombiner.default_exome_interval_size]
     env = _partition_env(ctx, wd)
     if ctx.quick:
-        chosen = [("GRCh38", c) for c in ("chr1", "chr7", "chr21", "chrX", "chrY", "chrM")] + [("GRCh37", c) for c in ("2", "MT")]
+        chosen = [("GRCh38", c) for c in ("chr1", "chr21", "chrX", "chrY", "chrM")] + [("GRCh37", c) for c in ("MT",)]
     else:
         chosen = [(g, c) for g in PRIMARY for c in PRIMARY[g]]
     with open(env["GP_CONTIGS"], "w") as f:
         for g, c in chosen:
             # for the mitochondrial contig additionally EVERY size in a band (many short intervals per call)
-            band = ((100, 200) if ctx.quick else (1, 600)) if c in ("chrM", "MT") else (1, 0)
+            band = ((100, 200) if ctx.quick else (1, 400)) if c in ("chrM", "MT") else (1, 0)
             f.write(json.dumps({"rg": g, "contig": c, "L": ns.refs[g].lengths[c], "defaults": defaults,
                                 "band_lo": band[0], "band_hi": band[1]}) + "\n")
     tlc.evaluate(wd, "GenomePartitionGen", env=env)
     return chosen, defaults
 
 
-def _partition(ctx, wd, ns, chosen, defaults):
-    """(4) B3 for calculate_even_genome_partitioning."""
+def _partition_calls(ctx, wd, ns, chosen, defaults):
+    """(4) B3 for calculate_even_genome_partitioning: call the real function on the TLC-generated universe."""
     fn = ns.combine.calculate_even_genome_partitioning
     env = _partition_env(ctx, wd)
     lemma = json.loads((wd / "lemma.json").read_text())
@@ -430,7 +465,10 @@ def _partition(ctx, wd, ns, chosen, defaults):
     with open(env["GP_CASES"], "w") as f:
         for c in cases:
             f.write(json.dumps({k: c[k] for k in ("rg", "contig", "L", "size", "ivs")}) + "\n")
-    tlc.evaluate(wd, "GenomePartitionVerdict", env=env, timeout=1800)
+    return cases, whole
+
+
+def _partition_verdict(ctx, wd, chosen, cases, whole):
     verdict = json.loads((wd / "gp_verdict.json").read_text())
     if verdict["n"] != len(cases):
         raise RuntimeError(f"verdict over {verdict['n']} cases, expected {len(cases)}")
@@ -469,13 +507,18 @@ def run(ctx):
     sjobs = _spec_jobs(ctx, wd)
     gjobs = _graph_jobs(ctx, wd)
     per = max(2, ctx.workers // 4)
-    with ThreadPoolExecutor(max_workers=len(sjobs) + len(gjobs) + 1) as ex:
+    with ThreadPoolExecutor(max_workers=len(sjobs) + len(gjobs) + 3) as ex:
         fut_g = [ex.submit(_run_job, wd, j, per) for j in gjobs]
         fut_gen = ex.submit(_partition_gen, ctx, wd, ns)
         fut_s = [ex.submit(_run_job, wd, j, per) for j in sjobs]
-        # meanwhile: (3) B2 traces of the real class (python), then their validation by TLC
-        ntr, nev = _traces(ctx, wd, ns)
-        phases["traces_s"] = round(time.time() - t0, 1)
+        # meanwhile (python): B2 traces of the real class, handed to TLC; partition calls, handed to TLC; graph replay
+        lines, tf, maxg, maxv = _traces_generate(ctx, wd, ns)
+        fut_tr = ex.submit(tlc.run, wd, "MCtrace", "MCtrace.cfg", workers=per, env={"TRACE_FILE": tf}, timeout=3000)
+        phases["traces_generated_s"] = round(time.time() - t0, 1)
+        chosen, defaults = fut_gen.result()
+        cases, whole = _partition_calls(ctx, wd, ns, chosen, defaults)
+        fut_v = ex.submit(tlc.evaluate, wd, "GenomePartitionVerdict", env=_partition_env(ctx, wd), timeout=3000)
+        phases["partition_calls_done_s"] = round(time.time() - t0, 1)
         edges = walks = 0
         for n, (job, f) in enumerate(zip(gjobs, fut_g)):
             res = f.result()
@@ -484,12 +527,12 @@ def run(ctx):
             edges += e
             walks += w
         phases["replay_done_s"] = round(time.time() - t0, 1)
-        chosen, defaults = fut_gen.result()
-        ncases, nivs = _partition(ctx, wd, ns, chosen, defaults)
-        phases["partition_done_s"] = round(time.time() - t0, 1)
+        ntr, nev = _traces_validate(ctx, wd, lines, tf, maxg, maxv, fut_tr.result())
+        fut_v.result()
+        ncases, nivs = _partition_verdict(ctx, wd, chosen, cases, whole)
         for job, f in zip(sjobs, fut_s):
             _collect_spec(ctx, job, f.result())
-        phases["spec_runs_done_s"] = round(time.time() - t0, 1)
+        phases["all_tlc_done_s"] = round(time.time() - t0, 1)
     ctx.cov["phase_wall_s"] = phases
     ctx.cov["traces_validated_against_impl"] = ntr + walks
     ctx.cov["trace_events"] = nev
